@@ -21,6 +21,7 @@ import (
 	"fmt"
 	"reflect"
 	"regexp"
+	"sort"
 	"strconv"
 	"strings"
 	"time"
@@ -193,7 +194,9 @@ func validateStruct(val reflect.Value, opts *options) error {
 
 func validateMap(val reflect.Value, opts *options) error {
 	val = chaseValue(val)
-	for _, key := range val.MapKeys() {
+	keys := val.MapKeys()
+	sort.Slice(keys, func(i, j int) bool { return keys[i].String() < keys[j].String() })
+	for _, key := range keys {
 		if err := tryRecursiveValidate(val.MapIndex(key), opts, nil); err != nil {
 			return err
 		}
